@@ -13,6 +13,7 @@ EXPLANATION = ("C14: pipe callbacks are invoked only from nni_pipe_run_cb, behin
 EXPLANATION += " Round 3: an operation taken from another endpoint's list is not completed with a code that ends a redial loop (R9)."
 EXPLANATION += " Round 5: the connect slot of a transport can be entered again -- no refusal hangs on a one-way latch (R12); a transport that creates the pipe before the connection is confirmed settles the parked connect wherever it gives that pipe up (R13)."
 EXPLANATION += ' Taking the head of an array queue moves every remaining entry down by one (R14).'
+EXPLANATION += ' Round 6: the cool-down timer accepts again (R6); the posix accept service loops leave a waiting accept only with the poller armed (R15); the transmit latch is released by every completion (R16 = C02.S4).'
 
 
 def rule_r1(ctx):
